@@ -11,7 +11,34 @@ from spec.base import And, Or, Not, Implies, Ite
 EPOCH_US = int(np.datetime64("1904-01-01T00:00:00", "us").astype("int64"))
 
 
-@harness("timestamp_encode", "types.TimeStamp.__init__", ["C12", "C07"],
+def _replay_encode(md, vparam, model, st):
+    """the counter-model's instant, encoded by the real TimeStamp and checked with exact integers"""
+    t = md.get("t_us")
+    if t is None or abs(t) > 2 ** 60:
+        return None
+    script = """
+import sys, struct
+import numpy as np
+from nptdms.types import TimeStamp
+t_us, unit = %r, %r
+k = {"us": 1, "ns": 1, "ms": 10**3, "s": 10**6}[unit]
+v = np.datetime64(t_us * 1000, "ns") if unit == "ns" else np.datetime64(t_us // k, unit)
+(f, s) = struct.unpack("<Qq", TimeStamp(v).bytes)
+total = t_us - int(np.datetime64("1904-01-01T00:00:00", "us").astype("int64"))
+us = total - s * 10**6
+ok = (0 <= us < 10**6 and us * 2**64 <= f * 10**6 < (us + 1) * 2**64
+      and f * 10**6 - us * 2**64 >= (2**23) * 10**6)
+print("value", v, "seconds", s, "fractions", f, "microsecond part", us, "ok" if ok else "VIOLATES the encoding contract")
+# and through the library's own decoder
+from nptdms.timestamp import TdmsTimestamp
+back = TdmsTimestamp(s, f).as_datetime64("us")
+print("decoded", back)
+sys.exit(0 if ok and back == np.datetime64(t_us, "us") else 1)
+""" % (t, vparam)
+    return {"script": script, "function": "types.TimeStamp.__init__"}
+
+
+@harness("timestamp_encode", "types.TimeStamp.__init__", ["C12", "C07"], replay=_replay_encode,
          variants=[("datetime64[%s]" % u, u) for u in ("us", "ms", "s", "ns")],
          note="all microsecond-resolution datetimes (symbolic count, also before 1904) given as datetime64 of unit "
               "us, ms, s, or ns (a whole number of microseconds): integer obligations")
